@@ -317,6 +317,87 @@ def gen_layout(rng, kind, big=False, want_cap=None, unaligned=False, tight=False
     raise RuntimeError('layout generator failed')
 
 
+def gen_end_layout(rng, kind, remain, ctl=False):
+    """a well-formed layout whose NDEF TLV header sits at the very end of the data area: `remain` (0..3) free bytes
+    are left behind tag + length byte (capacity = remain, minus nothing: 0/1/2/3), and - for Type 2 - physical memory
+    (dynamic lock bytes, configuration pages) lies directly behind the data area.  ctl: a lock control TLV declares
+    the first bytes behind the data area (otherwise they are just memory beyond the declared data area)."""
+    L = Layout()
+    L.kind = kind
+    if kind == 't2':
+        L.first, L.unit = 16, 4
+        size8 = rng.choice([6, 6, 8, 0x12, 0x20])
+        L.dend = 16 + 8 * size8
+        total = L.dend + 4 * rng.choice([1, 1, 2, 4, 6])
+        fixed_R, end_free = set(), L.dend
+        L.version = None
+    elif kind == 't1s':
+        L.first, L.unit = 12, 1
+        L.hr = bytes([0x11, rng.choice([0x48, 0x00])])
+        L.dend, total = 120, 120
+        fixed_R, end_free = set(range(104, 120)), 104
+    else:
+        L.first, L.unit = 12, 8
+        L.hr = bytes([rng.choice([0x12, 0x14]), 0x00])
+        total = 128 * rng.choice([2, 4])
+        L.dend = total
+        fixed_R, end_free = set(range(104, 128)), total
+    mem = bytearray(rng.randrange(1, 256) for _ in range(total))
+    L.off = end_free - 2 - remain
+    L.R = set(fixed_R)
+    o = L.first
+    if ctl and kind == 't2' and snap(L.dend) == L.dend:
+        n = rng.choice([1, 2, 3])
+        mem[o:o + 5] = ctl_tlv(1, L.dend, n, rng)
+        L.R.update(range(L.dend, L.dend + n))
+        o += 5
+    if rng.random() < 0.5:                 # a proprietary TLV in front (kept clear of the reserved blocks of Type 1)
+        room = min(L.off, 104 if kind != 't2' else L.off) - o - 2
+        if room > 0:
+            n = rng.randrange(0, min(room, 200) + 1)
+            mem[o:o + 2] = bytes([0xFD, n])
+            o += 2 + n
+    for a in range(o, L.off):              # NULL TLVs up to the NDEF TLV (reserved bytes are skipped by the walk anyway)
+        if a not in L.R:
+            mem[a] = 0
+    mem[L.off], mem[L.off + 1] = 3, 0
+    L.oneway = set(x for x in range(L.dend, min(total, L.dend + 3)))
+    f = L.free_after_tag()
+    L.cap_expected = (f + 1) - (4 if f + 1 > 256 else 2)
+    if kind == 't2':
+        mem[0:10] = bytes([rng.choice([1, 2, 5, 7]), 2, 3, 0x88, 5, 6, 7, 8, 0x0C, 0x48])
+        mem[10:12] = b'\x00\x00'
+        mem[12:16] = bytes([0xE1, 0x10, size8, 0x00])
+    else:
+        mem[0:8] = bytes([1, 2, 3, 4, 5, 6, 7, 0])
+        mem[8:12] = bytes([0xE1, 0x10, total // 8 - 1, 0x00])
+    L.mem = mem
+    assert L.cap_expected == remain and L.off >= L.first
+    return L
+
+
+def end_of_area_cases(ck, bt, pid, rng, kind, reps):
+    """format() and writes when the NDEF TLV ends (almost) at the end of the data area: capacity 0, 1, 2, 3"""
+    for remain in (0, 1, 2, 3):
+        for rep in range(reps):
+            L = gen_end_layout(rng, kind, remain, ctl=(rep % 3 == 2))
+            check_info(ck, bt, L)
+            for full in (False, True):
+                prev = bytearray(L.mem)
+                if full:
+                    L.put_message(prev, rnd(rng, L.cap_expected))
+                L1 = Layout()
+                L1.__dict__.update(L.__dict__)
+                L1.mem = prev
+                for n in sorted(set([0, L.cap_expected, L.cap_expected + 1])):
+                    write_case(ck, bt, L1, rnd(rng, n), pid, rng)
+                if pid == 'C03' and kind == 't2':
+                    for wipe in (None, 0, 0xFF):
+                        format_case(ck, bt, L1, wipe)
+            ck.count('%s-end-of-area-%d' % (kind, remain))
+    bt.flush()
+
+
 def lengths_for(L, rng, n_random=2):
     cap = L.cap_expected
     s = {0, 1, 253, 254, 255, 256, cap - 1, cap, cap + 1}
@@ -839,6 +920,19 @@ def corpus(ck, bt, pid, rng):
         format_case(ck, bt, L, 0)
     if pid == 'C01':
         write_case(ck, bt, L, b'\xd0\x00\x00', pid, rng)
+    # 48 byte data area, the empty NDEF TLV occupies its last two bytes (capacity 0), dynamic lock bytes at byte 64
+    # (seeded regression C03-c3: the terminator must not be stored behind the data area)
+    L = Layout()
+    L.kind, L.first, L.unit, L.off, L.dend, L.R = 't2', 16, 4, 62, 64, set()
+    L.oneway = {64, 65, 66}
+    L.mem = bytearray(bytes([1, 2, 3, 0x88, 5, 6, 7, 8, 0x0C, 0x48, 0, 0, 0xE1, 0x10, 6, 0]) + bytes([0xFD, 44]) + bytes([0x5A] * 44) + bytes([3, 0])
+                      + bytes([0x11, 0x22, 0x33, 0x44]) + bytes(12))
+    L.cap_expected = 0
+    if pid == 'C03':
+        for wipe in (None, 0, 0xFF):
+            format_case(ck, bt, L, wipe)
+    if pid in ('C01', 'C03'):
+        write_case(ck, bt, L, b'', pid, rng)
     # Type 2, length byte is the last byte of page 4: an assignment whose commit command is executed but not answered, then
     # an assignment of other data on the same tag object (stale reader cache; repair c02-tlv-reader-reset-after-failed-write)
     L = Layout()
@@ -935,6 +1029,7 @@ def run(ck, pid, mr):
     bt.flush()
     for kind in KINDS:
         if pid in ('C01', 'C03'):
+            end_of_area_cases(ck, bt, pid, rng, kind, 3 if quick else 12)
             nlay = (250 if quick else 1500)
             for i in range(nlay):
                 L = gen_layout(rng, kind, big=(i % 12 == 0), tight=(pid == 'C03' and i % 3 == 0),
